@@ -1,7 +1,7 @@
 """Which properties are claimed, at what level, and why the others are not."""
 
 HOOK_COMMITS = []
-FIX_COMMITS = ["5a7ea92", "968480f", "81560c0", "dd9d1dc", "30a1d27", "d05b8f1", "483ac36", "3ec4792", "3944e47", "ae7798f", "050b368", "8bc95ce", "d5cf2b7", "6953efe", "1247e95", "4d49515", "6f570af", "646d20b", "26bde2f", "3289b76", "59d7027", "904a9ec"]
+FIX_COMMITS = ["5a7ea92", "968480f", "81560c0", "dd9d1dc", "30a1d27", "d05b8f1", "483ac36", "3ec4792", "3944e47", "ae7798f", "050b368", "8bc95ce", "d5cf2b7", "6953efe", "1247e95", "4d49515", "6f570af", "646d20b", "26bde2f", "3289b76", "74fc42f", "d04b477", "cf7895f", "0885a79", "59d7027", "904a9ec"]
 
 _PURE = "pure function of its arguments (no storage, stream, clock, retry, schedule or fault in the statement or the anchored code): deciding it means generating inputs, which is not deterministic simulation (DESIGN.md section 6)"
 
@@ -18,6 +18,48 @@ NOT_APPLICABLE = {
 NOT_BUILT = {}
 
 CLAIMED = {
+    "C01": {
+        "level": "fault_enumeration",
+        "text": "Seeded model-generated edit histories with 1-5 commits on a lightweight checkout of a store-hosted 2a branch. Every commit with a seeded specific_files/exclude selection is compared with basis+selected substitution (revision tree, parents, tip, remaining pending set). The last commit is re-executed from a rebuilt byte-identical pre-state once per storage operation (quick <=10 sampled, thorough all) with an error before that operation. When commit raised, tip, listed revisions, tree parents and pending changes must be unchanged and a retry must succeed and record the right tree.",
+        "note": "One failing op per execution, no dirstate or user-file faults. Selections needing entries outside the selection or entering recorded path-filter findings are not generated; unappliable selections are judged only for 'raise changes nothing'. Two open findings (revision visible / tip moved when the error comes after the write group is committed).",
+        "technique": "deterministic simulation: model-based oracle (treesim MTree + selection model), per-run fault-point enumeration at the storage seam with snapshot-rebuilt pre-states, fresh-object read-back and retry",
+    },
+    "C16": {
+        "level": "exploration",
+        "text": "Seeded histories with real merges (1-2 pending merges, merges of merges), tags, and standalone, lightweight and bound layouts. Commit+uncommit round trips must restore tip, revno, parents with order, iter_changes, tags and every file's bytes and mtime. Uncommits of depth 1-4 with keep_tags, local and no tree are judged against a graph model: tip, master, re-recorded pending merges in order with heads filter, tag removal by reachability from the new parents, refusals change nothing. Sampling.",
+        "note": "The order of pending merges that existed before uncommit is not judged. Uncommit-to-null with merges is judged as a set. Master tags under local=True are not judged. Rust remove_tags is exercised only through the Python entry point.",
+        "technique": "deterministic simulation: graph-model oracle over simulated merge histories, stat-level file identity check",
+    },
+    "C23": {
+        "level": "exploration",
+        "text": "Seeded histories of bound, local and direct-to-master commits, update, pull, bind, unbind and tags over a master on a sim store and 1-2 heavyweight checkouts. A graph+tips model is judged after every op from fresh objects. Refusals must be exact in kind and change nothing. An error is injected at or after the master's tip write of bound commits: never local-ahead, and update converges. Sampling.",
+        "note": "Pull only from the master, and local-ahead pull is a no-op. Tags and recorded parents are not judged. One open finding (update with an empty master).",
+        "technique": "deterministic simulation: two-branch reference model, targeted fault window at the storage seam, fresh-object read-back",
+    },
+    "C40": {
+        "level": "exploration",
+        "text": "Seeded (history with renames, exec changes, symlinks, binary files, merges; repository format pair; bundle format 4 / 0.9 / 0.8; base/target; merge-directive options) scenarios: write -> read -> install into a repository holding the base, testament (and strict testament / tree) equality; MergeDirective2 round trip and install; merge through the directive vs merge from the branch in real trees; per-run lists of single-byte transit corruptions (flip/delete/insert, biased to headers, sha lines, base64, bz2 body) each installed into a fresh target: detected, or harmless.",
+        "note": "Old-format (0.8/0.9) defect classes and the xml->chk install class are recorded open findings, guarded and lifted in ~6% of runs; a v4 hang on truncated streams was fixed in /repo; any exception counts as detection of a corruption.",
+        "technique": "deterministic simulation: round trip + corruption injection in transit with testament and tree oracle, differential merge (directive vs branch)",
+    },
+    "C43": {
+        "level": "exploration",
+        "text": "Seeded commit sequences (adds, deletes, renames incl. swaps, file/dir/symlink kind changes, exec changes, odd names) each followed by an incremental or full upload through the transport seam, with one injected error or crash at a seeded remote operation and a re-run; the remote directory (content, exec bit, link resolution, marker) is compared with the model tree after every upload.",
+        "note": "Symlink, ignored-path move, directory-move-with-inner-change and multi-revision-span classes are recorded open findings, guarded and lifted in ~7% of runs; leftovers after a full re-upload are tolerated.",
+        "technique": "deterministic simulation: model-based comparison of the remote directory after every upload, fault injection at the transport seam",
+    },
+    "C44": {
+        "level": "exploration",
+        "text": "Seeded export->import round trips over generated histories (merges, renames, swaps, deletes, kind changes, symlinks, exec changes, binary content, tags; 2a / pack-0.92 / 1.14-rich-root sources) and exporter/importer options (plain/non-plain, rewrite_tags, no_tags, baseline, marks, checkpoints), the stream fed to the parser in seeded short reads; compared revision by revision through the mark maps: count, parents, message, committer, timestamp, timezone, trees, tip, revno, tags.",
+        "note": "Empty directories excluded; swap, plain kind-change-to-directory and directory-rename classes are recorded open findings (guarded, lifted in ~7% of runs); the non-plain property-name defect was fixed in /repo.",
+        "technique": "deterministic simulation: model-generated history through a real working tree, short-read stream seam, differential oracle (source vs imported repository)",
+    },
+    "C52": {
+        "level": "exploration",
+        "text": "Seeded upgrades over all newer-format pairs (knit, pack-0.92, rich-root-pack, 1.9, 1.9-rich-root, 1.14, 1.14-rich-root, 2a) with err_before at a seeded store op and retry / backup.bzr recovery; seeded chains of 1-4 reconfigure transitions (tree, branch, checkout, lightweight checkout, standalone, use-shared, repository trees) with pending tree changes; before/after oracle on tip, testaments, tags, working-tree content and iter_changes.",
+        "note": "No faults in reconfigure (no recovery contract); knit histories without kind changes; knit branch format has no tags.",
+        "technique": "deterministic simulation: before/after state oracle with fault injection on the control-directory store",
+    },
     "C12": {
         "level": "exploration",
         "text": "Seeded tree states (modified, edited-after-merge, added, unknown, renamed+edited files; an optional previous merge that leaves merge-written files and conflicts) and one command per run - revert(paths, backups), remove(paths, keep_files, force), merge, update in a lightweight checkout, switch, pull, uncommit - judged by a conservation oracle over the multiset of user-edited contents: every content not explicitly discarded is found byte-identical in the tree, in a numbered backup or conflict helper, or as the clean merge3 of it with the incoming change; uncommit leaves every file byte- and stat-identical. Sampling.",
